@@ -773,6 +773,37 @@ func annotationCases(r *Run, rng *Rng) {
 				}
 			}
 		}
+		// package reader: the same with SetAnnotations = {path, legacy path}; package writer clearing
+		for _, pth := range []string{"a.yaml", "d/e/f.yaml", ""} {
+			if strings.Contains(d, "config.kubernetes.io/index") || strings.Contains(d, "config.k8s.io/id") {
+				break
+			}
+			pn, err := (&kio.ByteReader{Reader: strings.NewReader(d), SetAnnotations: map[string]string{
+				kioutil.PathAnnotation: pth, kioutil.LegacyPathAnnotation: pth}}).Read()
+			if err != nil || len(pn) != 1 {
+				continue
+			}
+			a, ok1 := nodeTerm(orig)
+			b, ok2 := nodeTerm(pn[0])
+			if ok1 && ok2 {
+				r.AddCase(fmt.Sprintf("(A_pkgread 0%%N %s %s %s %s)", coqStr(pth), a, b, coqStrList(nonstrOf(orig, pn[0]))), map[string]string{"kind": "ann-pkgread", "doc": d, "path": pth}, true)
+				r.Count("annot", "pkgread")
+			}
+			before, ok3 := nodeTerm(pn[0])
+			cls, _ := protect(func() error {
+				for _, k := range []string{kioutil.IndexAnnotation, kioutil.LegacyIndexAnnotation, kioutil.SeqIndentAnnotation, kioutil.PathAnnotation, kioutil.LegacyPathAnnotation} {
+					if _, err := pn[0].Pipe(kyaml.ClearAnnotation(k)); err != nil {
+						return err
+					}
+				}
+				return kyaml.ClearEmptyAnnotations(pn[0])
+			})
+			after, ok4 := nodeTerm(pn[0])
+			if ok3 && ok4 {
+				r.AddCase(fmt.Sprintf("(A_pkgwrite %s %s %s)", before, after, cls), map[string]string{"kind": "ann-pkgwrite", "doc": d, "path": pth}, true)
+				r.Count("annot", "pkgwrite")
+			}
+		}
 		// writer: the clearing sequence of ByteWriter.Write applied to the parsed document
 		w, _ := kyaml.Parse(d)
 		cls, _ := protect(func() error {
@@ -1331,7 +1362,10 @@ func runC13(r *Run, rng *Rng, tier string) error {
 		r.AddCase(fmt.Sprintf("(S_crlf %s %s)", coqStr(s), coqStr(strings.ReplaceAll(s, "\r\n", "\n"))), map[string]string{"kind": "crlf", "s": s}, strings.Contains(s, "\r\n"))
 	}
 	// adversarial separators
-	for _, sep := range []string{"---", "--- ", "---#", "--- #c", "---x", "--- x", "----", "---\t#c", "--- # a --- b", "---\r", "-- -", "---- #"} {
+	for _, sep := range []string{"---", "--- ", "---#", "--- #c", "---x", "--- x", "----", "---\t#c", "--- # a --- b", "---\r", "-- -", "---- #",
+		// Unicode white space (strings.TrimSpace) and look-alikes that are not white space
+		"---\u00a0# c", "---\u00a0", "---\u2003#x", "---\u3000x", "---\u0085#", "---\xa0#", "---\u1680", "---\u2028#", "---\u205f",
+		"---\u202f x", "--- \u200b#", "---\ufeff#", "---\u2000\u200a\u2029 #c", "---\xe2\x80#", "---\xc2"} {
 		for _, pre := range []string{"", "a: 1", "a: 1\n", "\n"} {
 			for _, post := range []string{"", "b: 2", "b: 2\n", "\n---\nc: 3\n", "---\n"} {
 				splitCase(r, pre+"\n"+sep+"\n"+post, true)
